@@ -105,7 +105,7 @@ def r2_sinks(rep, ctx):
             rep.ok("C15.R2", key, "registration method %s %s" % (fn.name, what), node=sk["node"], fn=fn)
         else:
             rep.bad("C15.R2", key, "%s %s: a query changes what the database reports afterwards" % (fn.name, what), node=sk["node"], fn=fn)
-    rep.floor("C15.R2", "sinks on registry-owned containers", n, 8)
+    rep.floor("C15.R2", "sinks on registry-owned containers", n, 5)
     # escapes (informational): getters returning registry-owned mutable containers by reference
     esc = []
     for q, fn in m.funcs.items():
@@ -185,4 +185,4 @@ def r4_no_unlisted_memo(rep, ctx):
             rep.check(fn.name in allowed, "C15.R4", key, "%s writes %s.%s: %s" % (fn.name, w[0], w[1], allowed.get(fn.name, "")),
                       "%s writes %s.%s, a cache that is not among the known memo tables: nothing establishes that it is keyed by everything its content depends on, nor that registrations invalidate it "
                       "(answers can depend on the order of earlier queries)" % (q.split(".", 2)[-1], w[0], w[1]), fn=fn)
-    rep.floor("C15.R4", "non-registration writes to database/quantity state", n, 4)
+    rep.floor("C15.R4", "non-registration writes to database/quantity state", n, 3)
